@@ -114,15 +114,18 @@ def hostile_cases(tier: str, seed: int) -> List[Tuple[str, dict]]:
         if cls.startswith(("ctl:connect_v2", "ctl:set_name", "ctl:connect:src", "cut:connect_v2")) and not case["tc"]:
             for lvl in (10, 20):
                 cases.append((cls + ":logged", {**case, "log": lvl}))
+            # ... and with the manager started in debug mode (-d)
+            cases.append((cls + ":debug", {**case, "debug": True}))
     return cases
 
 
 class Stand:
     """a hub with bystanders: monitor m (CLIENT_CLOSED, FAILED), subscriber s (type 1234), publisher p"""
 
-    def __init__(self, timecode: bool, salt: int = 0, log_level: int = 100):
+    def __init__(self, timecode: bool, salt: int = 0, log_level: int = 100, debug: bool = False):
         self.log_level = log_level
-        self.h = Hub(timecode=timecode, salt=salt, log_level=log_level)
+        self.debug = debug
+        self.h = Hub(timecode=timecode, salt=salt, log_level=log_level, debug=debug)
         h = self.h
         self.n = 0
         for name, mid in (("m", 2), ("s", 3), ("p", 4)):
@@ -219,10 +222,10 @@ def run_hostile(tier: str, seed: int):
         st = None
         for cls, case in cases:
             want_log = case.get("log", 100)
-            if st is None or not st.h.alive() or st.n > 400 or st.h.timecode != case["tc"] or st.log_level != want_log:
+            if st is None or not st.h.alive() or st.n > 400 or st.h.timecode != case["tc"] or st.log_level != want_log or st.debug != bool(case.get("debug")):
                 if st is not None:
                     st.h.close()
-                st = Stand(timecode=case["tc"], salt=seed, log_level=want_log)
+                st = Stand(timecode=case["tc"], salt=seed, log_level=want_log, debug=bool(case.get("debug")))
             n += 1
             classes[cls.split(":")[0]] = classes.get(cls.split(":")[0], 0) + 1
             problem = None
